@@ -49,4 +49,23 @@ CHECKS = {
         "assumptions": ["replica L uses const char* / JsonString(linked) wherever the string has no NUL, replica C a hash-chosen "
                         "copied kind; JsonString::isLinked() is the only accessor excluded"],
     },
+    "C19": {
+        "level": "exploration",
+        "classes": ["C19", "C04"],
+        "rule": HIST_RULE + "; 'free' plans are executed by every configuration of the build matrix and their observable "
+                "transcripts compared pairwise; 'limit' plans first fill the document up to the slot-id limit of the build",
+        "budget_s": {"quick": 80, "thorough": 1500},
+        "batches": [
+            {"family": "hist", "mode": "free", "cfgs": {"quick": ["A", "B", "D", "F", "G"], "thorough": ALL_CFGS},
+             "runs": {"quick": 4000, "thorough": 60000}, "cross_config": True},
+            {"family": "hist", "mode": "limit", "cfgs": {"quick": ["B", "C", "F"], "thorough": ["B", "C", "F"]},
+             "runs": {"quick": 1500, "thorough": 40000}},
+            {"family": "hist", "mode": "limit", "cfgs": {"quick": ["D", "E", "G"], "thorough": ["D", "E", "G"]},
+             "runs": {"quick": 48, "thorough": 1500}},
+        ],
+        "probes": ["limit.slots_exhausted", "fill.hit_limit"],
+        "components": COMPONENTS,
+        "assumptions": ["4-byte slot ids and 4-byte string lengths are never driven to their limit (out of reach); "
+                        "only their arithmetic away from the edge is exercised"],
+    },
 }
